@@ -432,3 +432,47 @@ func init() {
 		}
 	})
 }
+
+// singleDefOf returns the expression a local is defined by when it is assigned exactly once in fd (nil otherwise).
+func singleDefOf(info *types.Info, fd *ast.FuncDecl, o types.Object) ast.Expr {
+	if o == nil || fd == nil || fd.Body == nil {
+		return nil
+	}
+	n := 0
+	var def ast.Expr
+	ast.Inspect(fd.Body, func(x ast.Node) bool {
+		switch v := x.(type) {
+		case *ast.AssignStmt:
+			for i, l := range v.Lhs {
+				id, ok := l.(*ast.Ident)
+				if !ok {
+					continue
+				}
+				lo := info.Defs[id]
+				if lo == nil {
+					lo = info.Uses[id]
+				}
+				if lo == o {
+					n++
+					if len(v.Lhs) == len(v.Rhs) {
+						def = v.Rhs[i]
+					}
+				}
+			}
+		case *ast.ValueSpec:
+			for i, nm := range v.Names {
+				if info.Defs[nm] == o {
+					n++
+					if i < len(v.Values) {
+						def = v.Values[i]
+					}
+				}
+			}
+		}
+		return true
+	})
+	if n == 1 {
+		return def
+	}
+	return nil
+}
